@@ -372,7 +372,7 @@ theorem skel_registry :
     Gen.Skel.removeConnectionLocked = ["Stream.Close", "unindexLocked", "delete"] ∧
     Gen.Skel.unindexLocked = ["delete"] ∧
     Gen.Skel.UpdateAuth = ["mu.Lock", "mu.Unlock", "unindexLocked"] ∧
-    Gen.Skel.CreateConnection = ["streamMgr.CreateStream", "connLock.Lock", "connLock.Unlock"] ∧
+    Gen.Skel.CreateConnection = ["streamMgr.CreateStream", "connLock.Lock", "connLock.Unlock", "connLock.Unlock"] ∧
     Gen.Skel.StreamManager_CreateStream = ["mu.Lock", "mu.Unlock", "factory.NewStreamProcessor"] := by decide
 
 /-- `SendCommandToClient` = `route`: local registry first, then `FindClientNode`; the HTTP-proxy and DNS
